@@ -294,7 +294,13 @@ def band_rule(chk, f, pid, domain_low, why):
     for s in ast.walk(f.node):
         if isinstance(s, ast.If) and isinstance(s.test, ast.Call) and ast.unparse(s.test.func) in ("np.isclose", "np.allclose") and any(isinstance(b, ast.Return) for b in s.body):
             b = isclose_band(s.test)
-            if b is None or "trace" not in ast.unparse(s.test.args[0]).lower() or b[0] != 3.0:
+            arg = s.test.args[0]
+            txt = ast.unparse(arg).lower()
+            if isinstance(arg, ast.Name):       # resolve a local through its assignments
+                for a_ in ast.walk(f.node):
+                    if isinstance(a_, ast.Assign) and any(isinstance(t_, ast.Name) and t_.id == arg.id for t_ in a_.targets):
+                        txt += " " + ast.unparse(a_.value).lower()
+            if b is None or "trace" not in txt or b[0] != 3.0:
                 continue
             n += 1
             ang = trace_band_angle(b[1])
